@@ -186,6 +186,19 @@ def dangling_sense_relation(L, r):
 
 
 @defect
+def synset_relation_to_a_sense(L, r):
+    # the target exists, but is a sense: not a synset the relation can point to
+    L['synsets'][r.randrange(4)].setdefault('relations', []).append(
+        {'relType': 'also', 'target': L['entries'][r.randrange(4)]['senses'][0]['id'], 'meta': None})
+
+
+@defect
+def sense_relation_to_an_entry(L, r):
+    L['entries'][1]['senses'][0].setdefault('relations', []).append(
+        {'relType': 'also', 'target': L['entries'][0]['id'], 'meta': None})
+
+
+@defect
 def invalid_synset_reltype(L, r):
     L['synsets'][3].setdefault('relations', []).append(
         {'relType': 'antonym', 'target': L['synsets'][0]['id'], 'meta': None})
@@ -318,7 +331,7 @@ def c18(tier: str) -> int:
                     nontrivial=sum(1 for c in cases if c['defects']))
     v.cov['defect_kinds'] = len(names)
     v.cov['reports'] = sum(len(x.get('runs', [])) for x in recs)
-    v.cov['rule'] = ('a clean lexicon + every single defect kind (34 kinds: duplicate ids of every kind, '
+    v.cov['rule'] = ('a clean lexicon + every single defect kind (36 kinds: duplicate ids of every kind, '
                      'dangling references incl. a hypernym to a missing synset, empty synset, ILI problems, '
                      'blank / repeated texts, self-loops, redundant / unreciprocated / mistyped relations, '
                      'part-of-speech clashes) + pairs + random combinations x select arguments (categories, '
